@@ -774,6 +774,8 @@ func init() {
 			n := 250
 			if g.Thorough() {
 				n = 4000
+			} else if g.Tier == "amplified" {
+				n = 2000
 			}
 			for i := 0; i < n; i++ {
 				threads := 2 + g.R.Intn(15)
